@@ -17,6 +17,7 @@ def seeded():
         caught = m.get('caught_by', [])
         tool = sorted(p for p, c in m.get('checks', {}).items() if c.get('rc') == 2)
         res = ', '.join(caught) if caught else ('**not caught**' + (' (exit 2: %s)' % ', '.join(tool[:3]) if tool else ''))
+        if m.get('caught_by_thorough'): res += ' — thorough tier: ' + ', '.join(m['caught_by_thorough'])
         rows.append('| %s | %s | %s | %s | %s |' % (sid, m.get('property', ''), (m.get('title') or '').replace('|', '/')[:90],
                                                 (m.get('needs_to_manifest') or '').replace('|', '/').replace('\n', ' ')[:110], res))
     head = '| seed | breaks | change | needs, to manifest | caught by (quick checks that print VIOLATION) |\n|---|---|---|---|---|\n'
